@@ -3,6 +3,7 @@ import Gv.Model.Pool
 import Gv.Model.Facts
 import Gv.Model.Phase
 import Gv.Gen.Facts
+import Gv.Oracle.PhaseAlign
 /-!
 Oracle handlers for the concurrency part of C08 and for C16 (ops of `tools/harness/ops_pool.go`).
 
@@ -351,6 +352,9 @@ def handle : Handler := fun op args impl =>
           else verdictOf (q.length == best) "longer-orf-exists"
         | _ => "fail:bad-result"
     some ⟨m, v⟩
+  -- the aligner behind phasing (C16): `Oracle/PhaseAlign.lean`
+  | "atgalign", _ => PhaseAlignOps.handle op args impl
+  | "phasent1", _ => PhaseAlignOps.handle op args impl
   | _, _ => none
 
 end Gv.Oracle.PoolOps
